@@ -155,6 +155,11 @@ def seq_equal_under(pc, a, b):
     if equal(a, b):
         return True
     pin = T.pinned(pc)
+    # lengths forced to zero by inequalities (len >= 0 always holds)
+    lens = {t for x in (a, b) for t in T.subterms(x) if t[0] == 'len'}
+    for l in lens:
+        if l not in pin and solver.entails(pc, T.eq0(l)):
+            pin[l] = T.I(0)
     if pin:
         a, b = T.rebuild(a, pin), T.rebuild(b, pin)
         if equal(a, b):
@@ -165,3 +170,42 @@ def seq_equal_under(pc, a, b):
         ps = list(x[1]) if x[0] == 'concat' else [x]
         return [q for q in ps if not solver.entails(pc, T.eq0(T.mk_len(q)))]
     return parts(a) == parts(b)
+
+
+def callers_of(ctx):
+    """crate-local call graph: callee path -> set of caller paths"""
+    cg = {}
+    for f in ctx.fx.raw['fns']:
+        for b in f['blocks']:
+            if b['cleanup']:
+                continue
+            t = b['term']
+            if t['k'] == 'call' and 'callee' in t:
+                c = t['callee']
+                p = c.get('rpath') if c.get('rlocal') else (c.get('path') if c.get('local') else None)
+                if p:
+                    cg.setdefault(p, set()).add(f['path'])
+            for st in b['stmts']:
+                if st['k'] == 'assign' and st['rv']['k'] == 'agg' and st['rv'].get('ak') == 'closure':
+                    cg.setdefault(st['rv']['closure'], set()).add(f['path'])
+    return cg
+
+
+def private_helpers_of(ctx, roots):
+    """non-public functions reachable only through `roots` (their callers, transitively, are all in the set)"""
+    cg = callers_of(ctx)
+    allowed = set(roots)
+    changed = True
+    while changed:
+        changed = False
+        for f in ctx.fx.raw['fns']:
+            p = f['path']
+            if p in allowed or f.get('vis') == 'Public' or f.get('trait_default_of'):
+                continue
+            if 'impl_trait' in f:
+                continue
+            callers = cg.get(p, set())
+            if callers and callers <= allowed:
+                allowed.add(p)
+                changed = True
+    return allowed
